@@ -12,7 +12,8 @@ LEVEL = "exploration"
 ENGINE = "E3 stack"
 TECHNIQUE = ("deterministic simulation end to end: the reference NCP emits incomingMessageHandler / trustCenterJoinHandler frames built by hand-written byte-level "
              "encoders (pre-v14 and v14 field orders) over the simulated ASH link (optionally faulty) into the real stack with the real ControllerApplication; "
-             "what reaches zigpy's packet_received / handle_join / handle_leave is compared field by field with the generated values")
+             "what reaches zigpy's packet_received / handle_join / handle_leave is compared field by field with the generated values"
+             ' The whole-stack soak (dst/soak.py: one ControllerApplication object through several connect/traffic/failure/reconnect epochs) is a further seeded scenario of this check.')
 LEVEL_TEXT = ("for every version 4..14: all 256 message-type values and all (update status, decision) pairs are swept completely with boundary field values; seeded runs "
               "draw APS fields, payload length 0..max, LQI, RSSI, addresses and link faults; exploration (field-value products are sampled)")
 COMPONENTS = e3app.COMPONENTS
@@ -59,8 +60,8 @@ def plan(tier):
     return {
         "sweeps": sweeps,
         "exhaustive": "versions 4..14 x all 256 message-type values (boundary field values) and all update-status x decision pairs (defined values and two undefined ones)",
-        "random": [("random", {}, 1)],
-        "runs": 400 if tier == "quick" else None,
+        "random": [("random", {}, 1), ("soak", {}, 1)],
+        "runs": 800 if tier == "quick" else None,
         "budget_s": 60 if tier == "quick" else 900,
         "batch": 8,
         "sweep_batch": 1,
@@ -68,6 +69,12 @@ def plan(tier):
 
 
 def run(scenario, params, tape, detail=False):
+    if scenario == "soak":
+        # the whole-stack soak (dst/soak.py): one application object through several connection epochs with traffic, failures and
+        # reconnects; this check reports the clauses of its own property from it
+        from .. import soak
+
+        return soak.run(params, tape, detail=detail)
     V = params["V"] if "V" in params else VERSIONS[tape.draw(len(VERSIONS), "V")]
     faults = scenario == "random" and tape.draw(3, "faults?") == 2
     plan_ = FaultPlan.swarm(tape) if faults else None
